@@ -131,7 +131,12 @@ pub fn state_for(r: &mut Rng, page: Page, op: u8) -> St {
 pub fn alias_pc(r: &mut Rng, s: &mut St, page: Page, op: u8) {
     let delta = [0u16, 1, 2, 3, 0xFFFF, 0xFFFE][r.below(6) as usize];
     let target = s.pc.wrapping_add(delta);
-    match r.below(7) {
+    match r.below(8) {
+        7 => {
+            // the word on top of the stack points at the instruction (RET/RETI/RETN/POP to itself)
+            let sp = s.sp;
+            s.poke(sp, &[target as u8, (target >> 8) as u8]);
+        }
         0 => s.set_pair(H, target),
         1 => s.set_pair(B, target),
         2 => s.set_pair(D, target),
@@ -152,6 +157,27 @@ pub fn alias_pc(r: &mut Rng, s: &mut St, page: Page, op: u8) {
         }
     }
     let _ = op;
+}
+
+/// Everything that can form a control-transfer target or a data address points at pc + delta:
+/// HL, IX, IY, the word on top of the stack, and the absolute operand nn (self-targeting jumps and
+/// returns, operands inside the instruction).
+pub fn self_target(s: &mut St, page: Page, delta: u16) {
+    let t = s.pc.wrapping_add(delta);
+    s.set_pair(H, t);
+    s.set_pair(IXH, t);
+    s.set_pair(IYH, t);
+    // keep the stack away from the code so that pushes do not clobber it
+    if s.sp.wrapping_sub(s.pc).wrapping_add(8) < 16 {
+        s.sp = s.pc.wrapping_add(0x4000);
+    }
+    let sp = s.sp;
+    s.poke(sp, &[t as u8, (t >> 8) as u8]);
+    let at = match page {
+        Page::Base => s.pc.wrapping_add(1),
+        _ => s.pc.wrapping_add(2),
+    };
+    s.poke(at, &[t as u8, (t >> 8) as u8]);
 }
 
 pub const RST_OPS: [u8; 8] = [0xC7, 0xCF, 0xD7, 0xDF, 0xE7, 0xEF, 0xF7, 0xFF];
